@@ -306,6 +306,14 @@ def check(facts, rep, tier, cfg):
             if l:
                 guards[bb] = g
                 lit2[bb] = l
+    # an obfs test belongs to the path test whose true edge dominates it
+    for bb, l in list(lit2.items()):
+        if l[0] == "obfs":
+            for pb, pl in lit2.items():
+                if pl[0].startswith("path=="):
+                    ts = [s2 for s2, v in guards[pb].edges if v is True]
+                    if ts and cb.edge_dominates((pb, ts[0]), bb):
+                        lit2[bb] = ("obfs|" + pl[0], True)
 
     def on_edge(bb, succ, auto, store):
         g = guards.get(bb)
@@ -340,7 +348,8 @@ def check(facts, rep, tier, cfg):
                 problems.append("the gate is reached for a path other than /ws")
         elif acts == ("inline-response",):
             seen_kinds.add("inline")
-            if not ((d.get("path==/health") or d.get("path==/version")) and d.get("obfs") is False):
+            if not ((d.get("path==/health") and d.get("obfs|path==/health") is False) or
+                    (d.get("path==/version") and d.get("obfs|path==/version") is False)):
                 problems.append("/health or /version answered although obfuscation is on (or for another path)")
         elif acts == ("backend_or_404_handler",):
             seen_kinds.add("fallback")
